@@ -99,6 +99,9 @@ def node_src(n):
         return s + '{% endfor %}'
     if k == 'tern':
         return '{{ "%s" if %s else "%s" }}' % (n[2], n[1].src(), n[3])
+    if k == 'tern2':
+        # a conditional expression in the else position nests to the right: A if c1 else (B if c2 else C)
+        return '{{ "%s" if %s else "%s" if %s else "%s" }}' % (n[2], n[1].src(), n[4], n[3].src(), n[5])
     if k == 'emit':
         return '{{ %s }}' % n[1].src()
     if k == 'break':
@@ -140,6 +143,8 @@ def run_ref(body, asg, lens, out):
                 run_ref(n[3], asg, lens, out)
         elif k == 'tern':
             out.append(n[2] if n[1].ev(asg) else n[3])
+        elif k == 'tern2':
+            out.append(n[2] if n[1].ev(asg) else (n[4] if n[3].ev(asg) else n[5]))
         elif k == 'emit':
             out.append(n[1].val(asg))
         elif k == 'break':
@@ -170,6 +175,8 @@ def prog_vars(body):
                     ls |= b2
         elif n[0] in ('tern', 'emit'):
             cs |= n[1].vars()
+        elif n[0] == 'tern2':
+            cs |= n[1].vars() | n[3].vars()
     return cs, ls
 
 
@@ -210,6 +217,10 @@ def family(tier):
     for c in conds:
         progs.append([('if', [(c, [T('T')])], [T('F')]), T('|')])
         progs.append([('tern', c, 'P', 'Q'), T('|')])
+    # chained conditional expressions (right-nested), also with compound conditions
+    progs.append([('tern2', V('c1'), 'P', V('c2'), 'Q', 'R'), T('|')])
+    progs.append([('tern2', Cond(('and', ('var', 'c1'), ('var', 'c3'))), 'P', Cond(('not', ('var', 'c2'))), 'Q', 'R'), T('|')])
+    progs.append([('if', [(V('c3'), [('tern2', V('c1'), 'P', V('c2'), 'Q', 'R')])], [T('E')]), T('|')])
     # loops with else, break, continue under conditions; nested if chains inside loops
     inner = [
         [T('a')],
